@@ -2,6 +2,8 @@ package scen
 
 import (
 	"context"
+	"encoding/base64"
+	"encoding/hex"
 	"encoding/json"
 	"fmt"
 	"os"
@@ -126,6 +128,27 @@ func setupC18() error {
 	}
 	if err := add("oct", oct); err != nil {
 		return err
+	}
+	// OKP on a Montgomery curve (the RFC 8037 A.6 X25519 key): the accept rule speaks of key type and
+	// algorithm, not of curves; whether the material itself is structurally valid is the JOSE library's call
+	{
+		hx := func(h string) string { b, _ := hex.DecodeString(h); return base64.RawURLEncoding.EncodeToString(b) }
+		d := hx("77076d0a7318a57d3c16c17251b26645df4c2f87ebc0992ab177fba51db92c2a")
+		x := hx("8520f0098930a754748b7ddcb43ef75a0dbf3a0d26381af4eba4a98eaa9b4e6a")
+		for _, v := range []struct {
+			name string
+			obj  map[string]any
+		}{
+			{"OKP-X25519-private", map[string]any{"kty": "OKP", "crv": "X25519", "x": x, "d": d}},
+			{"OKP-X25519-public", map[string]any{"kty": "OKP", "crv": "X25519", "x": x}},
+		} {
+			raw, _ := json.Marshal(v.obj)
+			pk, perr := jwk.ParseKey(raw)
+			if perr != nil {
+				continue // this JOSE library build does not read such keys: nothing to judge
+			}
+			c18Bases = append(c18Bases, c18Base{name: v.name, kty: "OKP", obj: v.obj, invalid: pk.Validate() != nil})
+		}
 	}
 	// every algorithm name the JOSE library registers, plus absent / none / unknown
 	seen := map[string]bool{}
